@@ -1,0 +1,94 @@
+"""
+Verification hooks (loaded only when the environment variable DATA_ALGEBRA_VERIF is "1").
+
+Records one event per operator node evaluated by the Pandas executor: node kind, declared columns, the shape of
+the inputs and of the result, and the scalars a step-shape law needs (group count for project, limit for
+order_rows, join type).  Events are appended as ND-JSON to the path in DATA_ALGEBRA_VERIF_TRACE (suffix: process
+id); nothing is recorded when that variable is unset.  The library is sequential: events carry a per-process
+sequence number, no clock.
+"""
+
+import json
+import os
+
+_state = {"depth": 0, "seq": 0, "children": [], "fh": None, "path": None}
+
+
+def _out():
+    path = os.environ.get("DATA_ALGEBRA_VERIF_TRACE")
+    if not path:
+        return None
+    path = path + "." + str(os.getpid())
+    if _state["path"] != path:
+        if _state["fh"] is not None:
+            try:
+                _state["fh"].close()
+            except Exception:  # noqa
+                pass
+        _state["fh"] = open(path, "a")
+        _state["path"] = path
+    return _state["fh"]
+
+
+def _n_groups(frame, keys):
+    if len(keys) == 0:
+        return 1, 1
+    sub = frame.loc[:, list(keys)]
+    n_all = int(sub.drop_duplicates().shape[0])
+    n_nonnull = int(sub.dropna().drop_duplicates().shape[0])
+    return n_all, n_nonnull
+
+
+def eval_value_source(model, s, data_map):
+    """Evaluate node s as PandasModelBase._eval_value_source does, recording the step."""
+    fh = _out()
+    if fh is None:
+        return model._method_dispatch_table[s.node_name](op=s, data_map=data_map)
+    depth = _state["depth"]
+    _state["depth"] = depth + 1
+    mark = len(_state["children"])
+    res = None
+    ok = False
+    try:
+        res = model._method_dispatch_table[s.node_name](op=s, data_map=data_map)
+        ok = True
+        return res
+    finally:
+        _state["depth"] = depth
+        kids = _state["children"][mark:]
+        del _state["children"][mark:]
+        try:
+            ev = {
+                "seq": _state["seq"],
+                "depth": depth,
+                "kind": s.node_name,
+                "ok": ok,
+                "declared": [str(c) for c in s.column_names],
+                "in_rows": [int(k.shape[0]) for k in kids],
+                "out_cols": [str(c) for c in res.columns] if ok else [],
+                "out_rows": int(res.shape[0]) if ok else 0,
+                "group_by": [],
+                "n_groups": 0,
+                "n_groups_nonnull": 0,
+                "limit": -1,
+                "jointype": "",
+                "alias": False,
+            }
+            _state["seq"] += 1
+            if ok:
+                if s.node_name == "ProjectNode" and len(kids) == 1:
+                    ev["group_by"] = [str(c) for c in s.group_by]
+                    ev["n_groups"], ev["n_groups_nonnull"] = _n_groups(kids[0], s.group_by)
+                elif s.node_name == "OrderRowsNode":
+                    ev["limit"] = -1 if s.limit is None else int(s.limit)
+                elif s.node_name == "NaturalJoinNode":
+                    ev["jointype"] = str(s.jointype)
+                elif s.node_name == "TableDescription":
+                    ev["alias"] = any(res is v for v in data_map.values())
+                _state["children"].append(res)
+            fh.write(json.dumps(ev) + "\n")
+            if depth == 0:
+                fh.flush()
+                del _state["children"][:]
+        except Exception:  # noqa  - a hook must never change what the library does
+            pass
